@@ -1,7 +1,7 @@
 SPECIFICATION BuildSpec
 CONSTANTS
-  Letters <- LettersGen
-  MaxLen = 4
+  Letters <- LettersPdf
+  MaxLen = 12
   PSteps = {1}
   PathAlg = "stack"
   Alias = "copy"
